@@ -224,8 +224,10 @@ class Samples:
         return result
 
     def __deepcopy__(self, memo):
+        # Never re-open the file: doing so in write mode would truncate the samples
+        # already written (e.g. when a finished sampler object is deep-copied).
         if self.mode == "w":
-            return Samples(self.filename, mode="w", overwrite=True)
+            return self.__copy__()
         else:
             return self
 
